@@ -1,7 +1,7 @@
 """Guarded-execution runtime used by if-converted kernels, plus fork-and-replay for symbolic
 branches in native (glue) code."""
 import z3
-from .values import (UNDEF, Undef, Unsupported, is_sym, to_z3_bool, conc_bool, b_and, b_or, b_not, ite)
+from .values import (OutsideModel, UNDEF, Undef, Unsupported, is_sym, to_z3_bool, conc_bool, b_and, b_or, b_not, ite)
 
 
 class GuardedSeq:
@@ -268,6 +268,7 @@ class FC:
     pos = 0
     pc = []
     pending = []
+    current_pre = None
     memo = {}
     keep = []
     active = False
@@ -331,8 +332,53 @@ def run_paths(fn, feasible=None):
         rt = fresh_runtime()
         try:
             r = fn()
+        except (Unsupported, OutsideModel):
+            raise
+        except Exception as e:      # noqa: BLE001
+            FC.active = False
+            gap = _model_gap(e)
+            if gap:
+                raise Unsupported(f"model gap: {gap}") from e
+            if FC.pc and not _path_feasible(list(FC.pc)):
+                work.extend(FC.pending)            # raised on a path no input can take: not a behaviour of the code
+                continue
+            e.gb_pc = list(FC.pc)                  # the conditions under which the code raises (for the counterexample)
+            raise
         finally:
             FC.active = False
         out.append((list(FC.pc), r, rt))
         work.extend(FC.pending)
     return out
+
+
+def _model_gap(e):
+    """an exception whose innermost frame is inside this package's NumPy/pandas/numba models and that is of a 'not implemented
+    here' kind says nothing about the code under test"""
+    import traceback
+    if not isinstance(e, (TypeError, AttributeError, NotImplementedError)):
+        return None
+    tb = traceback.extract_tb(e.__traceback__)
+    if not tb:
+        return None
+    last = tb[-1]
+    import os
+    here = os.path.dirname(os.path.abspath(__file__))
+    if os.path.abspath(last.filename).startswith(here) and "/props/" not in last.filename:
+        return f"{type(e).__name__}: {str(e)[:160]} at {os.path.basename(last.filename)}:{last.lineno}"
+    # e.g. NPShim.cumsum() got an unexpected keyword argument: raised at the call site in the repo, about a model function
+    msg = str(e)
+    if isinstance(e, TypeError) and ("Shim." in msg or "FakeSeries" in msg or "FakeFrame" in msg or "LIndex" in msg) and "argument" in msg:
+        return f"{type(e).__name__}: {msg[:160]}"
+    return None
+
+
+def _path_feasible(pc):
+    s = z3.Solver()
+    s.set("timeout", 10_000)
+    for c in list(FC.current_pre or []) + pc:
+        if isinstance(c, bool):
+            if not c:
+                return False
+            continue
+        s.add(c)
+    return str(s.check()) != "unsat"
